@@ -3,7 +3,10 @@ Real Ledger.update_history / process_status_update / subscribe_addresses, real D
 gap logic; the harness is the server: a toy UTXO chain (blocks + mempool, independent tx encoder
 vlib/ref/btc_tx.py, reference addresses from vlib/ref/bip32.py) grown in stages, status notifications
 delivered in seeded random order, concurrently, with chaos yields on every network and sqlite call.
-Oracle: reference ledger over the same chain (Y1-Y6, DESIGN §4 C09)."""
+Block headers reach the wallet before, while or after the notifications about the block's transactions are processed (independent
+streams). After the staged chain, rounds of payments the WALLET builds itself (inputs reserved by coin selection, some builds never
+broadcast) come back through the same notifications, with the reservations dropped as at a daemon start (Y7).
+Oracle: reference ledger over the same chain (Y1-Y7, DESIGN §4 C09)."""
 import asyncio
 import hashlib
 import random
@@ -15,7 +18,8 @@ ID = 'C09'
 LEVEL = 'exploration'
 RULE = ('case = scenario (1-2 accounts, gap setting, 3-6 stages of 3-14 transactions: fund / spend / re-spend / claim / update / abandon / '
         'support / purchase / sweep of unconfirmed parents, third-party outputs of every template kind, mempool->block transitions) replayed '
-        'under 3 delivery schedules. evaluations = (scenario, schedule, stage) observations. distinct = hash(scenario seed, schedule '
+        'under 3 delivery schedules (half of them with block headers arriving 1-2 blocks late), one of them followed by 2 rounds of '
+        'wallet-built payments + release of all reservations. evaluations = (scenario, schedule, stage) observations. distinct = hash(scenario seed, schedule '
         'interleaving signature, stage); non-trivial = stage contains a cross-address spend or a gap extension or a mempool transition')
 ASSUMPTIONS = ['the fake server follows the Electrum/LBRY-hub address-status protocol: history = confirmed by (height, position) then mempool '
                '(height 0, or -1 with unconfirmed inputs); claim/support/update outputs are indexed under the address they pay',
@@ -25,7 +29,8 @@ ASSUMPTIONS = ['the fake server follows the Electrum/LBRY-hub address-status pro
 REQUIRED_HITS = ['Y1.checked', 'Y2.checked', 'Y3.checked', 'Y4.checked', 'Y5.schedules_compared', 'stage.cross_address_spend',
                  'stage.change_notified_before_spent_address', 'stage.mempool_to_block', 'stage.gap_extension', 'stage.funded_at_gap_edge',
                  'tx.claim', 'tx.update', 'tx.support', 'tx.purchase', 'stream.stages', 'stream.notified_while_same_address_update_in_flight', 'tx.unconfirmed_parent', 'third_party.p2pk', 'third_party.p2sh',
-                 'third_party.segwit', 'third_party.op_return', 'third_party.claim_script_hash', 'chaos.points']
+                 'third_party.segwit', 'third_party.op_return', 'third_party.claim_script_hash', 'chaos.points',
+                 'hdr.tx_served_one_block_above_wallet_tip', 'Y7.checked', 'own.payment_synced_while_its_inputs_are_reserved']
 MAXT = (1 << 255) - 1
 PREFIX = b'\x55'
 _S = {}
@@ -200,6 +205,15 @@ class Server:
         self.calls = {'subscribe': 0, 'history': 0, 'batch': 0}
         self.headers = None         # the wallet's header store (only to MEASURE how far it is behind when a transaction is served)
         self.above_tip = {'one': 0, 'more': 0}
+        self.latency = None         # () -> loop iterations a reply takes (slow history / transaction downloads)
+        self.slow_replies = 0
+
+    async def _reply_delay(self):
+        n = self.latency() if self.latency else 0
+        if n:
+            self.slow_replies += 1
+            for _ in range(n):
+                await asyncio.sleep(0)
 
     async def retriable_call(self, function, *args, **kwargs):
         return await function(*args, **kwargs)
@@ -222,6 +236,7 @@ class Server:
         await self.ch.point('net:history:pre')
         h = self.chain.history(self.subscribed[address])
         self.calls['history'] += 1
+        await self._reply_delay()
         await self.ch.point('net:history:post')
         return [{'tx_hash': t, 'height': hh} for t, hh in h]
 
@@ -235,6 +250,7 @@ class Server:
                 if h >= known:
                     self.above_tip['one' if h == known else 'more'] += 1
         self.calls['batch'] += 1
+        await self._reply_delay()
         await self.ch.point('net:batch:post')
         return out
 
@@ -512,6 +528,11 @@ async def run_schedule(rec, scen, sched_seed, case, own=False):
         # pauses between two steps of the server, in loop iterations: from "all at once" to "longer than one address update takes", so
         # that a third notification for an address can arrive after the first update ended and while the second is running
         gaps = r.choice([[0, 0, 1, 2, 5, 12], [5, 20, 60, 150], [30, 100, 300, 600], [0, 10, 100, 400]])
+        if streaming:
+            # replies of the server take their time now and then (heavy tail, up to longer than the longest pause between two steps): a later
+            # update of an address can overtake an earlier one that still waits for its download (own random stream)
+            lr = random.Random(sched_seed * 40503 % (1 << 48) + 7)
+            server.latency = lambda: lr.choice([0] * 12 + [3, 15, 60, 250, 700])
 
         # header and address notifications are independent streams of the server: in half of the schedules the header of a new block
         # reaches the wallet only after (or while) the notifications about the transactions of that block are processed; the wallet is
@@ -610,7 +631,7 @@ async def run_schedule(rec, scen, sched_seed, case, own=False):
                     try:
                         tx = await Transaction.create([], outs, accounts, r.choice(accounts))
                     except InsufficientFundsError:
-                        rec.hit('own.build_refused')
+                        rec.hit(f'own.build_refused.{ledger.coin_selection_strategy or "standard"}')      # funding rules are C03's business
                         continue
                     d = T.decode(tx.raw)
                     if T.txid(d) != tx.id:
@@ -741,6 +762,8 @@ async def run_schedule(rec, scen, sched_seed, case, own=False):
             if case.get('own_payments', own):
                 await own_payment_rounds(len(scen['stages']))
         rec.hit('chaos.points', ch.points)
+        if server.slow_replies:
+            rec.hit('stream.slow_server_replies', server.slow_replies)
         for k, n in server.above_tip.items():
             if n:
                 rec.hit({'one': 'hdr.tx_served_one_block_above_wallet_tip', 'more': 'hdr.tx_served_further_above_wallet_tip'}[k], n)
